@@ -2,6 +2,7 @@
 
 HARNESSES = {
     "c18_shared": {"src": ["harness/c18_shared.cpp", "engine/sched.cpp"]},
+    "c18_fit_sched": {"src": ["harness/c18_fit_sched.cpp", "engine/sched.cpp"]},
 }
 
 CHECKS = {
@@ -32,6 +33,10 @@ CHECKS = {
              "share": 0.1, "crash_is_violation": True, "what": "race oracle for shared loss / dataset / model"},
             {"name": "fit-tsan", "harness": "c18_shared", "variant": "tsan", "args": ["--stage", "fit", "--small", "1"],
              "share": 0.15, "crash_is_violation": True, "what": "race oracle for tuning + fitting with 2 and 16 threads"},
+            {"name": "fit-sched", "harness": "c18_fit_sched", "args_quick": ["--budget", "1"], "args_thorough": ["--budget", "2", "--horizon", "150"],
+             "share": 0.3, "crash_is_violation": True,
+             "what": "whole fits (ridge, gboost) with 2-worker pools under the scheduler: every schedule of the whole fit with at most 1 "
+                     "non-default scheduling choice (quick); at most 2 within the first 150 decisions (thorough)"},
         ],
     },
 }
